@@ -2,6 +2,7 @@
 from lib.facts import norm, origins
 from lib import tables
 
+INLINE = True      # crate-local helpers the rules do not know by name are inlined into their callers (lib/inline.py)
 EXPLANATION = (
     "R14.1: each public entry point passes the action it documents to run_action (list_benches an action accepted by "
     "Action::is_list/is_list_terse, tables read from the matches! bodies). R14.2: in run_bench_entry every call that "
@@ -706,12 +707,22 @@ def cli_action_table(ctx, rule, prog, crate):
     ctx.check(bool(terse), rule, ["cli-action", "terse-means-format-terse"], "no closure of config_with_args compares the format value with \"terse\"", b.where(0))
 
 
+def r14_8(ctx, prog, crate):
+    """Every listed case is one a run executes: in run_bench_entry the per-thread-count loop that runs the benchmark is
+    never empty - an empty thread list is replaced by [1] before the loop (C15's thread-count pipeline R15.4, reported
+    here under this property because a case with no thread count is listed but runs nothing)."""
+    from rules import C15
+    from rules.common import Renamed
+    C15.r15_4(Renamed(ctx, "R14.8"), prog, crate)
+
+
 def r14_7(ctx, prog, crate):
     cli_action_table(ctx, "R14.7", prog, crate)
 
 
 def run(ctx, prog, crate):
     r14_7(ctx, prog, crate)
+    r14_8(ctx, prog, crate)
     r14_6(ctx, prog, crate)
     r14_5(ctx, prog, crate)
     r14_1(ctx, prog, crate)
